@@ -417,7 +417,7 @@ Definition win_type_ok (t : Z) : bool :=
   if t_int t || t_mask t || t_m64 t
   then (ty_is_int t || ty_is_mmx t) && Bool.eqb ((size_of t <=? 4) && negb (ty_is_mmx t)) ((abi_bytes t <=? 4) && negb (t_m64 t))
   else if t_f32 t || t_f64 t
-  then negb (ty_is_int t || ty_is_mmx t) && (ty_is_float t || ty_is_vec t) && ty_is_float t && (x86_vec_regtype t =? Xmm)
+  then negb (ty_is_int t || ty_is_mmx t) && (ty_is_float t || ty_is_vec t) && (ty_is_float t && (size_of t <=? 8)) && (x86_vec_regtype t =? Xmm)
   else negb (ty_is_int t || ty_is_mmx t) && (ty_is_float t || ty_is_vec t) && negb (ty_is_float t)
        && (x86_vec_rt t =? x86_vec_regtype t).
 
@@ -802,7 +802,7 @@ Proof.
   intros H. unfold win64_value. rewrite !order_at_high by exact H. cbn [Z.eqb negb andb].
   destruct (ty_is_int t || ty_is_mmx t); [cbn; lia|].
   destruct (ty_is_float t || ty_is_vec t); [|cbn; lia].
-  destruct (ty_is_float t); cbn; lia.
+  destruct (ty_is_float t && (size_of t <=? 8)); cbn; lia.
 Qed.
 
 Theorem win64_no_reg_beyond_16 : forall c ts i, 16 <= i ->
